@@ -80,7 +80,7 @@ def run(ctx: Ctx, env):
                 _empty_ns(v.fields.get("namespace"))
             want = "Identifier(node.attr)"
             wit = "x/a -> a"
-        elif okinds and okinds <= {"Attribute"}:
+        elif "Attribute" in okinds:
             shape = "owner is a longer path"
             ok = isinstance(v, NewNode) and v.cls == "Attribute" and is_visit_of(v.fields.get("owner"), "node.owner") and \
                 _is_field(v.fields.get("attr"), "node", "attr")
@@ -93,7 +93,7 @@ def run(ctx: Ctx, env):
                 (is_visit_of(v.fields.get("owner"), "node.owner") or (isinstance(v.fields.get("owner"), NodeV) and v.fields["owner"].path == "node.owner")))
             want = "the node unchanged"
             wit = "y/a stays y/a"
-        if not eq_conds and not (okinds <= {"Attribute"}) and "Identifier" in okinds:
+        if not eq_conds and "Identifier" in okinds:
             ctx.fail("R1.strip-condition", shape, "an Attribute whose owner is an identifier is handled without comparing the owner "
                      "with the variable", where, wit)
             continue
